@@ -225,7 +225,9 @@ impl<'a> CellType for DataRef<'a> {}
 // `Range::range` is checked bounded by Kani (harnesses range_window_*).
 // =====================================================================================================================
 //@@ item src/lib.rs trait "trait CellType"
+//@@ item src/lib.rs struct Cell
 //@@ item src/lib.rs struct Range
+impl CellType for String {}
 
 pub open spec fn lawful<T: CellType>() -> bool {
     &&& forall|a: T, b: T| call_ensures(T::clone, (&a,), b) ==> a == b
@@ -253,6 +255,48 @@ impl<T: CellType> Range<T> {
         self.inner@[(r - self.start.0) * self.w() + (c - self.start.1)]
     }
 }
+impl<T: CellType> Cell<T> {
+    pub closed spec fn p(&self) -> (u32, u32) { self.pos }
+    pub closed spec fn v(&self) -> T { self.val }
+}
+/// documented precondition of from_sparse: "sorted by row" as far as the code relies on it -- first/last row are min/max
+pub closed spec fn rows_sorted<T: CellType>(cs: Seq<Cell<T>>) -> bool {
+    forall|i: int| 0 <= i < cs.len() ==> cs[0].pos.0 <= (#[trigger] cs[i]).pos.0 <= cs[cs.len() - 1].pos.0
+}
+pub closed spec fn cell_at<T: CellType>(c: Cell<T>, r: int, co: int) -> bool { c.pos.0 == r && c.pos.1 == co }
+/// index of the last of the first k cells that sits at (r, co); -1 if none
+pub closed spec fn lastw<T: CellType>(cs: Seq<Cell<T>>, k: int, r: int, co: int) -> int
+    decreases k
+{
+    if k <= 0 { -1 } else if cell_at(cs[k - 1], r, co) { k - 1 } else { lastw(cs, k - 1, r, co) }
+}
+/// (lo, hi) is the tight bounding box of the cell positions
+pub closed spec fn is_bbox<T: CellType>(cs: Seq<Cell<T>>, lo: (u32, u32), hi: (u32, u32)) -> bool {
+    &&& forall|i: int| 0 <= i < cs.len() ==> lo.0 <= (#[trigger] cs[i]).pos.0 <= hi.0 && lo.1 <= cs[i].pos.1 <= hi.1
+    &&& exists|i: int| 0 <= i < cs.len() && (#[trigger] cs[i]).pos.0 == lo.0
+    &&& exists|i: int| 0 <= i < cs.len() && (#[trigger] cs[i]).pos.0 == hi.0
+    &&& exists|i: int| 0 <= i < cs.len() && (#[trigger] cs[i]).pos.1 == lo.1
+    &&& exists|i: int| 0 <= i < cs.len() && (#[trigger] cs[i]).pos.1 == hi.1
+}
+/// `r` is the range `from_sparse` builds from `cs` (clause text of units range / lazyrange, C05.sparse_*: "for row-sorted cells: empty iff
+/// no cells; else bounds == tight bounding box, at(p) == value of the last cell at p, default elsewhere")
+pub open spec fn sparse_of<T: CellType>(r: Range<T>, cs: Seq<Cell<T>>) -> bool {
+    &&& r.wf()
+    &&& (r.nonempty() <==> cs.len() > 0)
+    &&& (cs.len() > 0 ==> is_bbox(cs, r.lo(), r.hi()))
+    &&& (forall|i: int, j: int| r.has(i, j) && lastw(cs, cs.len() as int, i, j) >= 0 ==> r.at(i, j) == cs[lastw(cs, cs.len() as int, i, j)].v())
+    &&& (lawful::<T>() ==> forall|i: int, j: int| r.has(i, j) && lastw(cs, cs.len() as int, i, j) < 0 ==> r.at(i, j) == dflt::<T>())
+    &&& (forall|k: int| 0 <= k < cs.len() ==> r.has((#[trigger] cs[k]).p().0 as int, cs[k].p().1 as int))
+}
+// TRUSTED: expansion of `#[derive(Default)]` on `struct Range<T>` ((0, 0), (0, 0), Vec::new()); the derive itself is dropped by the
+// extractor (Verus rejects derives on generic structs). Only the observable fact "the default range is empty and well-formed" is used.
+impl<T: CellType> Default for Range<T> {
+    fn default() -> (r: Self)
+        ensures r.wf() && !r.nonempty(),
+    {
+        Range { start: (0, 0), end: (0, 0), inner: Vec::new() }
+    }
+}
 /// `r` is the window `src.range(s, e)` (C05: "bounds == (s, e); at(p) == src.at(p) where p in src, default elsewhere")
 pub open spec fn window_of<T: CellType>(r: Range<T>, src: Range<T>, s: (u32, u32), e: (u32, u32)) -> bool {
     &&& r.wf()
@@ -265,6 +309,20 @@ pub open spec fn window_of<T: CellType>(r: Range<T>, src: Range<T>, s: (u32, u32
 //@@ fn src/lib.rs Range::new props=C05 ret=r external_body
 //@@ sig
     requires start.0 <= end.0, start.1 <= end.1,
+//@@ end
+//@@ fn src/lib.rs Range::empty props=C05 ret=r
+//@@ sig
+    ensures r.wf(), !r.nonempty(),
+//@@ end
+// ASSUMED here (external_body), PROVED in unit range (clauses C05.sparse_*): Range::from_sparse.  Documented precondition ("cells: Vec of
+// non empty Cells, sorted by row"; "panics when a Cell row is lower than the first Cell row or bigger than the last Cell row"): rows_sorted.
+//@@ fn src/lib.rs Range::from_sparse props=C05 ret=r external_body
+//@@ sig
+    requires
+        //# C06.from_sparse_rows_sorted
+        rows_sorted(cells@),
+    ensures
+        sparse_of(r, cells@),
 //@@ end
 //@@ fn src/lib.rs Range::is_empty props=C05 ret=r
 //@@ sig
@@ -598,10 +656,41 @@ impl<'a> XlsxCellReader<'a> {
             r is Ok ==> (r->Ok_0).xml_events() == xml.events() && (r->Ok_0).strings() == strings@ && (r->Ok_0).formats() == formats@
                 && (r->Ok_0).is_1904() == is_1904,
             r is Ok <==> prologue_ok(xml.events()),
+            r is Ok ==> (r->Ok_0).fml_remaining() == fml_stream(xml.events()).0 && (r->Ok_0).fml_terminal() == fml_stream(xml.events()).1
+                && (r->Ok_0).dims() == declared_dims(xml.events()),
     { unimplemented!() }
 }
 /// the prologue of the sheet part (up to `<sheetData>`) is readable (abstract)
 pub uninterp spec fn prologue_ok(s: Seq<Ev>) -> bool;
+/// the formula cells a reader opened on these events delivers, and how the stream ends (None: cleanly) -- abstract here: the decoding
+/// of one cell (`next_formula`, src/xlsx/cells_reader.rs) is not under contract in this unit
+pub uninterp spec fn fml_stream(s: Seq<Ev>) -> (Seq<Cell<String>>, Option<XlsxError>);
+/// the `<dimension ref=..>` the prologue declares
+pub uninterp spec fn declared_dims(s: Seq<Ev>) -> Dimensions;
+impl<'a> XlsxCellReader<'a> {
+    /// formula cells the reader will still deliver (a sheet part is a finite file and every next_formula call consumes input: this is
+    /// what gives the loop a measure)
+    pub uninterp spec fn fml_remaining(&self) -> Seq<Cell<String>>;
+    pub uninterp spec fn fml_terminal(&self) -> Option<XlsxError>;
+    pub uninterp spec fn dims(&self) -> Dimensions;
+    // TRUSTED: signature of XlsxCellReader::dimensions (returns the stored field)
+    #[verifier::external_body]
+    pub fn dimensions(&self) -> (d: Dimensions)
+        ensures d == self.dims(),
+    { unimplemented!() }
+    // TRUSTED: signature of XlsxCellReader::next_formula; pops the head of the ghost stream
+    #[verifier::external_body]
+    pub fn next_formula(&mut self) -> (r: Result<Option<Cell<String>>, XlsxError>)
+        ensures
+            final(self).fml_terminal() == old(self).fml_terminal() && final(self).dims() == old(self).dims(),
+            match r {
+                Ok(Some(c)) => old(self).fml_remaining().len() > 0 && c == old(self).fml_remaining()[0]
+                    && final(self).fml_remaining() == old(self).fml_remaining().skip(1),
+                Ok(None) => old(self).fml_remaining().len() == 0 && old(self).fml_terminal() is None && final(self).fml_remaining() == old(self).fml_remaining(),
+                Err(e) => old(self).fml_remaining().len() == 0 && old(self).fml_terminal() == Some(e) && final(self).fml_remaining() == old(self).fml_remaining(),
+            },
+    { unimplemented!() }
+}
 
 // =====================================================================================================================
 // State of an opened workbook (frame conditions quantify over the REAL fields of struct Xlsx, extracted above)
